@@ -8,7 +8,11 @@ package dtls
 
 import (
 	"bytes"
+	"encoding/hex"
+	"strings"
+	"sync"
 	"testing"
+	"testing/synctest"
 	"time"
 
 	"github.com/pion/dtls/v3/internal/ciphersuite"
@@ -161,5 +165,138 @@ func TestVerifC10ExporterE2E(t *testing.T) {
 				}
 			})
 		}
+	}
+}
+
+type c10KeyLog struct {
+	mu sync.Mutex
+	b  bytes.Buffer
+}
+
+func (k *c10KeyLog) Write(p []byte) (int, error) {
+	k.mu.Lock()
+	defer k.mu.Unlock()
+
+	return k.b.Write(p)
+}
+
+func (k *c10KeyLog) String() string {
+	k.mu.Lock()
+	defer k.mu.Unlock()
+
+	return k.b.String()
+}
+
+// TestVerifC10Live: real connections; application records captured from the wire are recomputed
+// by the model keyed ONLY from the client's KeyLogWriter line (client random + master secret) and the
+// server random, for the suites whose primitive the model implements (AES-CCM, AES-CBC).
+func TestVerifC10Live(t *testing.T) {
+	out := newVOut(t)
+	type variant struct {
+		suite CipherSuiteID
+		cid   bool
+	}
+	vs := []variant{
+		{TLS_PSK_WITH_AES_128_CCM, false}, {TLS_PSK_WITH_AES_128_CCM_8, true}, {TLS_PSK_WITH_AES_256_CCM_8, false},
+		{TLS_PSK_WITH_AES_128_CBC_SHA256, false}, {TLS_PSK_WITH_AES_128_CBC_SHA256, true},
+		{TLS_ECDHE_ECDSA_WITH_AES_128_CCM, true}, {TLS_ECDHE_ECDSA_WITH_AES_256_CBC_SHA, false},
+	}
+	writes := 3
+	if vIsThorough() {
+		writes = 40
+	}
+	for _, v := range vs {
+		vBubble(t, func(t *testing.T) {
+			var ccfg, scfg *dtlsConfig
+			if ciphersuite.ForID(ciphersuite.ID(v.suite), nil).AuthenticationType() == ciphersuite.AuthenticationTypePreSharedKey {
+				ccfg, scfg = vPSKPair(v.suite)
+			} else {
+				ccfg, scfg = vCertPair()
+				ccfg.CipherSuites = []CipherSuiteID{v.suite}
+				scfg.CipherSuites = []CipherSuiteID{v.suite}
+			}
+			ccfg.MaxVersion, scfg.MaxVersion = protocol.Version1_2, protocol.Version1_2
+			if v.cid {
+				ccfg.ConnectionIDGenerator = RandomCIDGenerator(4)
+				scfg.ConnectionIDGenerator = RandomCIDGenerator(6)
+			}
+			klog := &c10KeyLog{}
+			ccfg.KeyLogWriter = klog
+			lab := c10Establish(t, ccfg, scfg)
+			defer lab.close()
+
+			var cr, ms []byte
+			for _, line := range strings.Split(klog.String(), "\n") {
+				f := strings.Fields(line)
+				if len(f) == 3 && f[0] == "CLIENT_RANDOM" {
+					cr, _ = hex.DecodeString(f[1])
+					ms, _ = hex.DecodeString(f[2])
+				}
+			}
+			if len(cr) != 32 || len(ms) != 48 {
+				t.Fatalf("no CLIENT_RANDOM line in the key log: %q", klog.String())
+			}
+			cs, _ := lab.Client.Conn.ConnectionState()
+			srb := cs.remoteRandom.MarshalFixed()
+			crb := cs.localRandom.MarshalFixed()
+			if !bytes.Equal(crb[:], cr) {
+				t.Fatalf("key log client random differs from the ClientHello random")
+			}
+			clientCID := dtlsstate.CommonState(lab.Client.Conn.state).LocalConnectionIDForInboundRecords()
+			serverCID := dtlsstate.CommonState(lab.Server.Conn.state).LocalConnectionIDForInboundRecords()
+
+			for _, from := range []string{"server", "client"} {
+				for w := 0; w < writes; w++ {
+					synctest.Wait()
+					start := lab.Net.count()
+					payload := []byte(strings.Repeat("x", w*7) + "live-" + from)
+					if _, err := lab.peer(from).Conn.Write(payload); err != nil {
+						t.Fatal(err)
+					}
+					synctest.Wait()
+					cidIn := clientCID // records sent by the server carry the client's CID
+					if from == "client" {
+						cidIn = serverCID
+					}
+					for _, d := range lab.Net.since(start) {
+						if d.From != from {
+							continue
+						}
+						for _, ri := range vParseDatagram(d.Data, len(cidIn)) {
+							if ri.CT != int(protocol.ContentTypeApplicationData) && ri.CT != int(protocol.ContentTypeConnectionID) {
+								continue
+							}
+							plain := payload
+							var cid []byte
+							hs := 13
+							if ri.CT == int(protocol.ContentTypeConnectionID) {
+								cid = cidIn
+								hs += len(cid)
+								plain = append(bytes.Clone(payload), byte(protocol.ContentTypeApplicationData))
+							}
+							var eiv []byte
+							fn, tag, site, note := 73, "live record "+v.suite.String(), "", ""
+							sp := ciphersuite.ForID(ciphersuite.ID(v.suite), nil)
+							if strings.Contains(sp.String(), "_CBC_") {
+								eiv = ri.Raw[hs : hs+16]
+								if cid != nil {
+									fn, tag = 74, tag+" cid (MAC as coded)"
+									note = "CBC + connection ID: compared with the MAC input cbc.go computes (F8), see the suite leg"
+								}
+							}
+							cl := uint64(0)
+							if from == "client" {
+								cl = 1
+							}
+							c10Emit(out, fn, 256, tag, site, note,
+								[][]byte{ms, cr, srb[:], cid, plain, eiv},
+								[]uint64{uint64(v.suite), cl, uint64(ri.Epoch), ri.Seq, uint64(ri.CT), 0xfefd}, //nolint:gosec
+								[][]byte{ri.Raw})
+						}
+					}
+					lab.Pump.step()
+				}
+			}
+		})
 	}
 }
